@@ -815,6 +815,13 @@ impl UdpSocket {
             if let Some(cap) = w.udp_capture.as_mut() {
                 cap.push((from, dst, buf.to_vec()));
             }
+            if w.udp_drop_to_ports.contains(&dst.port()) {
+                rec.fate = 1;
+                w.udp_sends.push(rec);
+                w.stats.udp_lost += 1;
+                w.log(12, self.sid as u64, buf.len() as u64);
+                return Ok(buf.len());
+            }
             if !w.udp_hold_ports.is_empty() && (w.udp_hold_ports.contains(&dst.port()) || w.udp_hold_ports.contains(&from.port())) {
                 // parked by the in-path attacker; what becomes of it is the harness's decision
                 rec.fate = 5;
